@@ -103,3 +103,61 @@ def _method(spec, model):
             problems.append('data changed but interpolator caches kept')
     return {'confirmed': bool(problems), 'observed': {'outcome': out, 'problems': problems, 'labels_after': after[0]},
             'expected': spec['target'] if not spec['must_refuse'] else 'refusal with unchanged state'}
+
+
+def native_history_cases():
+    """real isotherms on real adsorbates with a thermodynamic backend, converted along different routes: the stored data after any
+    history equal the original data converted directly, and converting back restores the original numbers.  One adsorbate carries
+    a *stored* molar mass and densities that deliberately disagree with its backend: every step of every route must draw the
+    constants from the same source."""
+    import numpy
+    import pygaps
+    pygaps.logger.disabled = True
+    made = []
+    try:
+        odd = pygaps.Adsorbate('pgv_c02_odd_n2', backend_name='Nitrogen', molar_mass=50.0, liquid_density=0.3, gas_density=0.01, store=True)
+        made.append(odd)
+        meta = dict(material={'name': 'pgv_c02_mat', 'density': 2.0, 'molar_mass': 100.0}, temperature=77.355, pressure_mode='absolute', pressure_unit='bar',
+                    loading_basis='molar', loading_unit='mmol', material_basis='mass', material_unit='g', temperature_unit='K')
+        for ads in ('nitrogen', 'pgv_c02_odd_n2'):
+            mk = lambda: pygaps.PointIsotherm(pressure=[0.1, 0.2, 0.4, 0.3], loading=[0.5, 1.25, 2.0, 1.8], adsorbate=ads, **meta)
+            routes = {
+                'molar>mass>volume_gas': [dict(basis_to='mass', unit_to='g'), dict(basis_to='volume_gas', unit_to='cm3')],
+                'molar>volume_liquid>mass>volume_gas': [dict(basis_to='volume_liquid', unit_to='cm3'), dict(basis_to='mass', unit_to='mg'), dict(basis_to='volume_gas', unit_to='cm3')],
+                'molar>percent>volume_gas': [dict(basis_to='percent'), dict(basis_to='volume_gas', unit_to='cm3')],
+                'molar>mass>fraction>volume_gas': [dict(basis_to='mass', unit_to='g'), dict(basis_to='fraction'), dict(basis_to='volume_gas', unit_to='cm3')],
+            }
+            direct = mk()
+            direct.convert_loading(basis_to='volume_gas', unit_to='cm3')
+            want = numpy.asarray(direct.loading(), dtype=float)
+            orig = numpy.asarray(mk().loading(), dtype=float)
+            for rname, steps in routes.items():
+                probs = []
+                try:
+                    iso = mk()
+                    for st in steps:
+                        iso.convert_loading(**st)
+                    got = numpy.asarray(iso.loading(), dtype=float)
+                    if not numpy.allclose(got, want, rtol=1e-9):
+                        probs.append(f"after the route {got} vs converted directly {want}")
+                    iso.convert_loading(basis_to='molar', unit_to='mmol')
+                    back = numpy.asarray(iso.loading(), dtype=float)
+                    if not numpy.allclose(back, orig, rtol=1e-9):
+                        probs.append(f"back in mmol {back} vs original {orig}")
+                except Exception as exc:
+                    probs.append(f"{type(exc).__name__}: {exc}"[:160])
+                yield {'name': f"native_history|{ads}|{rname}", 'ok': not probs, 'detail': '; '.join(probs[:2])}
+    finally:
+        for a in made:
+            try:
+                pygaps.ADSORBATE_LIST.remove(a)
+            except ValueError:
+                pass
+
+
+@replayer('c02.native_history')
+def _native_history(spec, model):
+    for r in native_history_cases():
+        if r['name'] == spec['name']:
+            return {'confirmed': not r['ok'], 'observed': r['detail'], 'expected': 'route == direct conversion; back-conversion restores the original'}
+    return {'confirmed': False, 'error': 'case not found'}
